@@ -21,8 +21,12 @@ randomly up to 40×40): on a flat map the operational procedure computes the clo
       setElevation true (elevFuel (flat s b)) (flat s b) e x1 y1 (some x2) (some y2) = .ok m' →
       m'.tiles.map (·.elevation) = pyramid s b e x1 y1 x2 y2
 
-so smoothness (`pyramid_smooth`) is a theorem about the closed form only; `setElevation_eq_pyramid_partial` proves
-the part of that equation that concerns the rectangle itself (both sides are `e` there).
+so smoothness (`pyramid_smooth`) is a theorem about the closed form only.  Proved parts of the equation:
+`setElevation_eq_pyramid_partial` (on the rectangle itself), `setElevation_eq_pyramid_level` (request = base),
+`setElevation_eq_pyramid_whole` (whole map selected), `setElevation_eq_pyramid_lower_one` / `_raise_one`
+(|request - base| = 1, rectangles of more than one tile); open: steps of two levels or more outside the rectangle.
+For every map and request the result stays in the interval spanned by the start elevations and the request
+(`elevations_stay_in_range`, over histories `elevations_in_range_over_histories`).
 -/
 namespace Aoe.Props.C20
 open Aoe.Map
